@@ -443,6 +443,31 @@ def execute(ctx, prog, steps, tag):
                             dict(prog, steps=steps[:i + 1], order=[]), f'{step["cls"]}.cmd.group = {cobj.group!r}, expected {want!r}')
             else:
                 ctx.ok('command-inheritance')
+        if step['op'] == 'define' and step['cls'] in world.classes and hasattr(world.classes[step['cls']], 'accessibles'):
+            # a command with a struct argument overridden by a plain method: the optional members are the arguments of the
+            # (nearest) overriding method which have defaults - in the class and in every instance made from it
+            byname = {c['name']: c for c in prog['classes']}
+            want = ['b']      # root: def cmd2(self, a, b=1)
+            for cname in reversed(chain_list(prog, step['cls'])):
+                o = byname[cname].get('overrides', {}).get('cmd2')
+                if o and o.get('kind') == 'method2':
+                    want = {'a': ['a'], 'ab': ['a', 'b'], '': []}.get(o.get('defaults'), want)
+            cls_ = world.classes[step['cls']]
+            got_cls = sorted(cls_.accessibles['cmd2'].argument.optional) if 'cmd2' in cls_.accessibles else None
+            got_inst = None
+            if got_cls is not None:
+                try:
+                    inst = cls_('probe', world.log, {'description': 'probe'}, world.srv)
+                    got_inst = sorted(inst.accessibles['cmd2'].for_export()['datainfo']['argument'].get('optional', sorted(inst.accessibles['cmd2'].argument.members)))
+                except Exception as e:   # noqa
+                    got_inst = f'{type(e).__name__}: {e}'
+            if isinstance(got_inst, str):
+                ctx.label('command-override:instance-refused')      # (the class can not be instantiated for other reasons)
+            elif got_cls is not None and (got_cls != want or got_inst != want):
+                ctx.finding('command-override:optional-arguments-' + ('of-instance' if got_cls == want else 'of-class'),
+                            dict(prog, steps=steps[:i + 1], order=[]), f'{step["cls"]}.cmd2: class {got_cls!r}, instance {got_inst!r}, expected {want!r}')
+            elif got_cls is not None:
+                ctx.ok('command-override-optional')
         after = all_snaps(world)
         allowed = touched(step, prog)
         for key, snap in before.items():
